@@ -253,11 +253,15 @@ class IPv4FlowSpec(NLRI):
         data_bin = b''
         data_list = data.split('|')
         eol = 0
-        for i, data in enumerate(data_list):
-            if i == len(data_list) - 1:
-                eol = 1
-            if '&' not in data:
+        for i, and_data in enumerate(data_list):
+            # the items joined by '&' carry the AND bit, except the first one
+            and_list = and_data.split('&')
+            for j, data in enumerate(and_list):
+                if i == len(data_list) - 1 and j == len(and_list) - 1:
+                    eol = 1
                 flag_dict = {'EOL': eol}
+                if j > 0:
+                    flag_dict['AND'] = 1
                 if data[0] == '=':
                     off_set = 1
                     flag_dict['EQ'] = 1
